@@ -74,23 +74,23 @@ func Load(repo string, patterns []string, overlay map[string][]byte) (*Engine, e
 }
 
 type HarnessCfg struct {
-	Pkg       string // package path
-	Func      string
-	IntMode   bool
-	Solver    string
-	Unwind    int
-	TimeoutMs int
-	Params    map[string]int
-	Tier      string
-	MaxPaths  int
-	Deadline  time.Duration
-	Label     string
-	Discover   bool            // gobmc pass 1: record which pre-existing memory goroutines write
-	AutoShared map[string]bool // gobmc pass 2: memory slots to treat as shared
-	MaxRecv   int // gobmc: bound on values received from one channel on one thread path
-	MaxEvents int // gobmc: bound on the number of events of one thread path
-	StopOnFinding bool // a finding of this harness decides the check: everything else stops
-	Split     int // decisions near the root whose alternatives are explored by separate workers (-1: none)
+	Pkg           string // package path
+	Func          string
+	IntMode       bool
+	Solver        string
+	Unwind        int
+	TimeoutMs     int
+	Params        map[string]int
+	Tier          string
+	MaxPaths      int
+	Deadline      time.Duration
+	Label         string
+	Discover      bool            // gobmc pass 1: record which pre-existing memory goroutines write
+	AutoShared    map[string]bool // gobmc pass 2: memory slots to treat as shared
+	MaxRecv       int             // gobmc: bound on values received from one channel on one thread path
+	MaxEvents     int             // gobmc: bound on the number of events of one thread path
+	StopOnFinding bool            // a finding of this harness decides the check: everything else stops
+	Split         int             // decisions near the root whose alternatives are explored by separate workers (-1: none)
 }
 
 func (eng *Engine) newInterp(ex *Explorer, pkg *ssa.Package) *interpreter {
